@@ -1,6 +1,28 @@
 import os
+import re
 
+import lib
 from lib import TieCheck, BIN, HARNESS, COQ, REPO, Lock, go_env, sh
+
+
+def broken_lemmas(log):
+    """'File "./BridgeOpt.v", line 57' -> 'BridgeOpt.v: WithIgnoreTrailingSlash_router_eq (line 57)'."""
+    out = []
+    for m in re.finditer(r'File "\./([A-Za-z0-9_]+\.v)", line (\d+)', log):
+        f, ln = m.group(1), int(m.group(2))
+        try:
+            src = open(os.path.join(COQ, "C19", f)).read().splitlines()[:ln]
+        except OSError:
+            continue
+        name = None
+        for line in src:
+            mm = re.match(r"\s*(?:Lemma|Theorem|Corollary|Example|Fact|Definition|Fixpoint)\s+([A-Za-z0-9_']+)", line)
+            if mm:
+                name = mm.group(1)
+        item = "%s: %s (line %d)" % (f, name, ln)
+        if item not in out:
+            out.append(item)
+    return out
 
 
 class C19(TieCheck):
@@ -8,10 +30,17 @@ class C19(TieCheck):
     area = "C19"
     props = "Props_C19.v"
     harness = "c19"
+    # the check's own theorems and the correspondence are built without the tie-A files (OptSem / GenOpt / BridgeOpt):
+    # a broken tie is reported as such (gen) and the cases are still evaluated / searched for a failing input
+    coq_targets = ["Corr.vo"]
+    # tie A (docs/GenOpt.md): the option closures, New and NewRoute regenerated from the tree under test, proved equal
+    # to Model.v for all inputs
+    extra_props = [("C19", "Props_GenOpt.v")]
     extra_trust = [
         "model: coq/C19/Model.v (options.go option closures, fox.go New/NewRoute/Stats, txn.go Handle/Update/HandleRoute, route.go accessors, context.go ClientIP); spec: coq/C19/Spec.v (last deciding option wins)",
         "coq/C19/Pattern.v keeps only parseRoute's brace handling and wildcard counter; full pattern validity is property C10's and is assumed for the token-built patterns the harness generates",
         "coq/C19/GenC19.v is regenerated from fox.go on every run by harness/cmd/c19gen (does NewRoute reject a nil handler)",
+        "coq/C19/GenOpt.v is regenerated from options.go / fox.go on every run by harness/cmd/optgen (every option closure on the router and on the route side, New, NewRoute); coq/C19/BridgeOpt.v proves Model.apply_glob / apply_ropt / new / new_route equal to it for all inputs; trusted: optgen itself and the primitives of coq/C19/OptSem.v (docs/GenOpt.md)",
         "hook /repo/verif_c13.go (build tag verif) gives len(route.mws)",
     ]
     assumptions = [
@@ -31,7 +60,31 @@ class C19(TieCheck):
         env["VERIF_REPO"] = REPO
         with Lock("coq.C19"):
             rc, o = sh([exe, "out=" + os.path.join(COQ, "C19", "GenC19.v")], env=env, timeout=120)
-        return rc == 0, o
+        if rc != 0:
+            return False, o
+        ok2, o2 = self.gen_options()
+        return ok2, o + o2
+
+    def gen_options(self):
+        """tie A for the option closures, New and NewRoute: optgen rewrites coq/C19/GenOpt.v from the tree under
+        test, then BridgeOpt.v / Props_GenOpt.v are rebuilt.  A refusal or a bridge lemma that no longer compiles is a
+        broken tie; the lemma is named."""
+        exe, o = lib.build_harness("optgen")
+        if exe is None:
+            return False, "optgen build failed:\n" + o[-2000:]
+        with Lock("coq.C19"):
+            rc, og = sh([exe, "repo=" + REPO, "out=" + os.path.join(COQ, "C19", "GenOpt.v")], env=go_env(), timeout=300)
+        refused = "\n".join(l for l in og.splitlines() if "REFUSED" in l)
+        okb, lb = lib.coq_build("C19", targets=["Props_GenOpt.vo"])
+        if rc == 0 and okb:
+            return True, og
+        bl = broken_lemmas(lb) if not okb else []
+        named = ("broken bridge lemma: " + ", ".join(bl)) if bl else ""
+        k = lb.find('File "./')
+        err = "" if okb else (lb[k:k + 1200] if k >= 0 else lb[-1200:])
+        head = "tie A (optgen, docs/GenOpt.md): the option closures / New / NewRoute of %s are no longer proved equal to coq/C19/Model.v" % REPO
+        msg = "\n".join(x for x in [head, refused[:900], named, err, ("==> " + named) if named else "", ("==> " + refused[:600]) if refused else ""] if x)
+        return False, msg
 
 
 CHECK = C19()
